@@ -29,7 +29,7 @@ class _FloatMeta(type):
         return o is cls or o is builtins.float
 
     def __ne__(cls, o):
-        return not cls.__eq__(o)
+        return not type(cls).__eq__(cls, o)
 
     def __hash__(cls):
         return hash(builtins.float)
@@ -46,6 +46,31 @@ class sym_float(builtins.float, metaclass=_FloatMeta):
         return builtins.float(x)
 
 
+class _IntMeta(type):
+    def __instancecheck__(cls, x):
+        return isinstance(x, builtins.int)
+
+    def __eq__(cls, o):
+        return o is cls or o is builtins.int
+
+    def __ne__(cls, o):
+        return not type(cls).__eq__(cls, o)
+
+    def __hash__(cls):
+        return hash(builtins.int)
+
+
+class sym_int(builtins.int, metaclass=_IntMeta):
+    """int(x) of a non-constant symbolic real = truncation toward zero, modelled by an integer solver variable"""
+    def __new__(cls, *a, **k):
+        if len(a) == 1 and not k and isinstance(a[0], Sym) and a[0].p.const_value() is None:
+            from . import path
+            if not a[0].is_real():
+                raise TypeError("int() argument must be a real number")
+            return path.sym_trunc(a[0])
+        return builtins.int(*a, **k)
+
+
 class _ComplexMeta(type):
     def __instancecheck__(cls, x):
         return isinstance(x, builtins.complex) or (isinstance(x, Sym) and not x.is_real())
@@ -54,7 +79,7 @@ class _ComplexMeta(type):
         return o is cls or o is builtins.complex
 
     def __ne__(cls, o):
-        return not cls.__eq__(o)
+        return not type(cls).__eq__(cls, o)
 
     def __hash__(cls):
         return hash(builtins.complex)
@@ -374,7 +399,7 @@ def _inject(mod, extra=None):
         if new is not None:
             saved[k] = v
             g[k] = new
-    for k, new in (("float", sym_float), ("complex", sym_complex), ("type", sym_type), ("isinstance", sym_isinstance)):
+    for k, new in (("float", sym_float), ("complex", sym_complex), ("int", sym_int), ("type", sym_type), ("isinstance", sym_isinstance)):
         saved[k] = g.get(k, _MISSING)
         g[k] = new
     for k, new in (extra or {}).items():
